@@ -2,8 +2,10 @@ package props
 
 import (
 	"fmt"
+	"runtime"
 	"strings"
 	"testing"
+	"time"
 
 	"verifharness/evid"
 
@@ -275,4 +277,166 @@ func FuzzC11(f *testing.F) {
 			t.Fatalf("VIOLATION C11: %s", v.Msg)
 		}
 	})
+}
+
+// ---------------------------------------------------------------------------
+// C11, concurrent callers: each caller's text must still come out whole
+// ---------------------------------------------------------------------------
+
+type c11Conc struct {
+	SplitLen int      `json:"split_len"`
+	Methods  []string `json:"methods"`
+	Texts    []Q      `json:"texts"`
+	Slow     bool     `json:"slow_server"`
+}
+
+func genC11Conc(t *rapid.T) *c11Conc {
+	c := &c11Conc{SplitLen: rapid.SampledFrom([]int{13, 14, 20, 40, 100, 450}).Draw(t, "split_len"), Slow: rapid.Bool().Draw(t, "slow")}
+	g := rapid.IntRange(2, 4).Draw(t, "goroutines")
+	for i := 0; i < g; i++ {
+		c.Methods = append(c.Methods, rapid.SampledFrom([]string{"Privmsg", "Notice", "Ctcp", "CtcpReply", "Action", "Privmsgf"}).Draw(t, "method"))
+		n := rapid.IntRange(effSplit(c.SplitLen)+1, 12*effSplit(c.SplitLen)).Draw(t, "len")
+		if n > 3000 {
+			n = 3000
+		}
+		unit := fmt.Sprintf("%c%c%c ", 'a'+i, 'A'+i, '0'+i)
+		if rapid.Bool().Draw(t, "nospace") {
+			unit = fmt.Sprintf("%c", 'a'+i)
+		}
+		c.Texts = append(c.Texts, Q(strings.Repeat(unit, n/len(unit)+1)[:n]))
+	}
+	return c
+}
+
+func runC11Conc(c *c11Conc) *Violation {
+	tc := newTestClient(cliOpts{Flood: true, Configure: func(cfg *client.Config) { cfg.SplitLen = c.SplitLen }})
+	defer tc.shutdown()
+	if err := tc.connect(); err != nil {
+		return violationf("C11", "connect: %v", err)
+	}
+	conn := tc.conn()
+	if !tc.syncOut(stallTimeout()) {
+		return violationf("C11", "registration never completed")
+	}
+	if c.Slow {
+		conn.Gate(true)
+	}
+	done := make(chan struct{}, len(c.Texts))
+	for i := range c.Texts {
+		i := i
+		go func() {
+			defer func() { done <- struct{}{} }()
+			target, text := fmt.Sprintf("#t%d", i), string(c.Texts[i])
+			switch c.Methods[i] {
+			case "Privmsg":
+				tc.C.Privmsg(target, text)
+			case "Privmsgf":
+				tc.C.Privmsgf(target, "%s", text)
+			case "Notice":
+				tc.C.Notice(target, text)
+			case "Ctcp":
+				tc.C.Ctcp(target, "foo", text)
+			case "CtcpReply":
+				tc.C.CtcpReply(target, "foo", text)
+			case "Action":
+				tc.C.Action(target, text)
+			}
+		}()
+	}
+	if c.Slow {
+		// let the 32-slot queue fill, then drain slowly
+		time.Sleep(200 * time.Microsecond)
+		for k := 0; k < 40; k++ {
+			conn.Allow(3)
+			runtime.Gosched()
+		}
+		conn.Gate(false)
+	}
+	for range c.Texts {
+		select {
+		case <-done:
+		case <-time.After(stallTimeout()):
+			_, dump := goircGoroutines()
+			return &Violation{Property: "C11", Msg: "a concurrent split send never returned", Detail: dump}
+		}
+	}
+	if !tc.syncOut(stallTimeout()) {
+		return violationf("C11", "final PING never answered")
+	}
+	lines, _ := SplitCRLF(conn.Written())
+	n := effSplit(c.SplitLen)
+	for i := range c.Texts {
+		target, text := fmt.Sprintf("#t%d", i), string(c.Texts[i])
+		var joined strings.Builder
+		var pieces []string
+		for _, l := range lines {
+			var rest string
+			if strings.HasPrefix(l, "PRIVMSG "+target+" :") {
+				rest = l[len("PRIVMSG "+target+" :"):]
+			} else if strings.HasPrefix(l, "NOTICE "+target+" :") {
+				rest = l[len("NOTICE "+target+" :"):]
+			} else {
+				continue
+			}
+			if strings.HasPrefix(rest, "\x01") {
+				rest = strings.TrimSuffix(rest, "\x01")
+				if sp := strings.Index(rest, " "); sp >= 0 {
+					rest = rest[sp+1:]
+				} else {
+					rest = ""
+				}
+			}
+			pieces = append(pieces, rest)
+		}
+		for k, p := range pieces {
+			if len(p) > n {
+				return violationf("C11", "concurrent callers: piece %d for %s has %d bytes > %d", k, target, len(p), n)
+			}
+			if k < len(pieces)-1 {
+				if !strings.HasSuffix(p, "...") {
+					return violationf("C11", "concurrent callers: piece %d of %d for %s lacks the continuation marker: %q", k, len(pieces), target, tail(p, 40))
+				}
+				p = p[:len(p)-3]
+			}
+			joined.WriteString(p)
+		}
+		if joined.String() != text {
+			return violationf("C11", "concurrent callers (%d goroutines, SplitLen %d): the pieces sent to %s by %s do not reproduce its text: got %q... want %q...", len(c.Texts), c.SplitLen, target, c.Methods[i], clipHead(joined.String(), 60), clipHead(text, 60))
+		}
+	}
+	return nil
+}
+
+func clipHead(s string, n int) string {
+	if len(s) > n {
+		return s[:n]
+	}
+	return s
+}
+
+func TestC11_Concurrent(t *testing.T) {
+	col := evid.New("C11", "2..4 goroutines each sending its own long text to its own target through a splitting method at the same time, server reading freely or slowly so that senders block mid-sequence; per target the pieces must reproduce that caller's text; non-trivial = every case (all texts exceed SplitLen); distinct by scenario")
+	defer finish(t, col)
+	rapid.Check(t, func(t *rapid.T) {
+		c := genC11Conc(t)
+		v := runC11Conc(c)
+		col.Case(fmt.Sprintf("%+v", *c), true, fmt.Sprintf("goroutines=%d", len(c.Texts)), fmt.Sprintf("slow=%v", c.Slow))
+		if len(c.Texts) == 2 && len(c.Texts[0])+len(c.Texts[1]) < 200 {
+			col.Sample(c)
+		}
+		if v != nil {
+			failRapid(t, "TestC11_Concurrent", v, c)
+		}
+	})
+}
+
+func TestC11_Concurrent_Replay(t *testing.T) {
+	var c c11Conc
+	loadReplay(t, &c)
+	n := envInt("VERIF_REPLAY_RUNS", 100)
+	for i := 0; i < n; i++ {
+		if v := runC11Conc(&c); v != nil {
+			t.Fatalf("REPRODUCED (run %d of %d): %s", i+1, n, v.Msg)
+		}
+	}
 }
